@@ -6,6 +6,7 @@
    Statements only; proofs are in Proofs/CanonWalk.v. *)
 From Coq Require Import List NArith Bool.
 From V Require Proofs.GrayAll Proofs.CanonAllN.
+From V Require Proofs.SjtAll Proofs.CanonNpnAll.
 From V Require Import Base.Res Model.Kernels Model.Canon Spec.Bfun Spec.Transform Proofs.CanonWalk.
 Import ListNotations.
 Open Scope N_scope.
@@ -71,3 +72,20 @@ Theorem C05_gray_flips_general : forall n, (1 <= n)%nat ->
 Proof. exact V.Proofs.GrayAll.gray_flips_general. Qed.
 Print Assumptions C05_n_general.
 Print Assumptions C05_gray_flips_general.
+
+
+(* ---- P and NPN canonization beyond the property bound (P: every n below the usize bound; NPN: every n <= 31, the
+        limit is the u32 certificate mask), by PROOFS that the swap walk visits every permutation (Proofs/SjtAll.v) and
+        the flip walk every complementation (Proofs/GrayAll.v); proofs in Proofs/SjtAll.v and Proofs/CanonNpnAll.v *)
+Theorem C05_p_general : forall n t, N.of_nat n < 2 ^ 64 -> wf n t ->
+  exists c perm, p_canonization n t = Ok (c, perm) /\ wf n c /\ cert_ok n (val t) (val c) perm 0.
+Proof. exact V.Proofs.SjtAll.p_cert_general. Qed.
+Theorem C05_npn_general : forall n t, (n <= 31)%nat -> wf n t ->
+  exists c perm mask, npn_canonization n t = Ok (c, perm, mask) /\ wf n c /\ cert_ok n (val t) (val c) perm mask.
+Proof. exact V.Proofs.CanonNpnAll.C05_npn_general. Qed.
+Theorem C05_already_canonical_npn_general : forall n t perm mask, (n <= 31)%nat -> wf n t ->
+  npn_canonization n t = Ok (t, perm, mask) -> cert_ok n (val t) (val t) perm mask.
+Proof. exact V.Proofs.CanonNpnAll.C05_already_canonical_npn_general. Qed.
+Print Assumptions C05_p_general.
+Print Assumptions C05_npn_general.
+Print Assumptions C05_already_canonical_npn_general.
